@@ -88,7 +88,8 @@ XfPortInit == << Cnew("N", "n"), Ccreate("NL", 1, "work", 0),
                  Ccreate("DP", 1, "i", 1), Ccreate("DP", 1, "o", 1),
                  Ccreate("DP", 2, "a", 2), Ccreate("DP", 2, "b", 1), Ccreate("DC", 2, "n", 1),
                  Ccreate("DP", 3, "t", 1), Ccreate("DC", 3, "m", 2),
-                 Cchild(2, "l", 1), Cchild(3, "m", 2), Cchild(3, "x", 1),
+                 \* instance names that begin / end with the path separator
+                 Cchild(2, "/dbg", 1), Cchild(3, "io/", 2), Cchild(3, "x", 1),
                  Csettopdef(1, 3) >>
 XfPortScope ==
       [init |-> XfPortInit, ops |-> {"b:connect"},
@@ -152,7 +153,7 @@ FmtInit3 == << Cnew("N", "n"), Ccreate("NL", 1, "work", 0),
 (* C17: adversarial names for two siblings of every naming scope, then export and re-import *)
 NamePool == {"a", "A", "ab", "aB", "a-b", "a_b", "a b", "1a", "_a", "a[0]", "a/b", "a\\b", "$a", "&a", "a&b",
              "a_sdn_1_", "A_sdn_1_", "a_sdn_2_", "@254:z", "@255:z", "@256:z", "@257:z", "@256:Z", "@300:yz", "@300:xz",
-             "@256:-", "1", "-"}
+             "@256:-", "1", "-", "b\\", "\\"}
 NameInit == FmtInit \o << Cchild(4, "u", 3), Cchild(4, "v", 1) >>
                \o [j \in 1..12 |-> Ccreate("DP", 1, "k" \o ToString(j), 1)]      \* twelve more sibling ports on leaf
 (* re-export of a netlist that already carries identifiers: export, then a NEW sibling whose name would get  *)
@@ -244,7 +245,8 @@ EblifInit == << Cnew("N", "top"), Ccreate("NL", 1, "hdi_primitives", 0), Ccreate
                 Ccreate("DP", 2, "A", 2), Ccreate("DP", 2, "Y", 1), Ccreate("DC", 2, "A", 2), Ccreate("DC", 2, "Y", 1),
                 Ccreate("DP", 3, "clk", 1), Ccreate("DP", 3, "d", 2), Ccreate("DP", 3, "q", 1),
                 Ccreate("DC", 3, "clk", 1), Ccreate("DC", 3, "d", 2), Ccreate("DC", 3, "q", 1),
-                Ccreate("DC", 3, "n1", 1), Ccreate("DC", 3, "b", 2),
+                \* internal nets of the top model named like ports of the declared primitives (I of LEAF, A[k] of AND2)
+                Ccreate("DC", 3, "I", 1), Ccreate("DC", 3, "A", 2),
                 [op |-> "set_dir", x |-> 1, ival |-> 2], [op |-> "set_dir", x |-> 2, ival |-> 3],
                 [op |-> "set_dir", x |-> 3, ival |-> 2], [op |-> "set_dir", x |-> 4, ival |-> 3],
                 [op |-> "set_dir", x |-> 5, ival |-> 2], [op |-> "set_dir", x |-> 6, ival |-> 2],
@@ -306,7 +308,12 @@ ParseCands(s, which) ==
            THEN {[op |-> "parse_text", n |-> 1, fmt |-> f, kind |-> "none", idx |-> 0]}
                 \cup {[op |-> "parse_text", n |-> 1, fmt |-> f, kind |-> kd, idx |-> i] :
                          <<kd, i>> \in {"trunc", "del", "dup", "repl"} \X (0..399)}
-                \cup (IF f = "edif" THEN {[op |-> "parse_text", n |-> 1, fmt |-> f, kind |-> "dangle", idx |-> i] : i \in 0..39} ELSE {})
+                \cup (IF f = "edif" THEN {[op |-> "parse_text", n |-> 1, fmt |-> f, kind |-> kd, idx |-> i] :
+                                              <<kd, i>> \in {"dangle", "crosslib"} \X (0..39)} ELSE {})
+                \* the same corruptions handed to the reader while the process default is the EDIF policy
+                \cup {[op |-> "parse_text", n |-> 1, fmt |-> f, kind |-> kd, idx |-> 3 * i, pol |-> "EDIF"] :
+                         <<kd, i>> \in {"trunc", "del", "repl"} \X (0..133)}
+                \cup {[op |-> "parse_text", n |-> 1, fmt |-> f, kind |-> "none", idx |-> 0, pol |-> "EDIF"]}
            ELSE {} : f \in {"edif", "verilog", "eblif"}}
 EdifOpts == [rename : BOOLEAN, case : {"same", "upper"}, bitorder : {"asc", "desc", "mixed"},
              comments : BOOLEAN, skip_empty : BOOLEAN]
@@ -385,18 +392,42 @@ QInit == << Cnew("N", "n"), Ccreate("NL", 1, "l", 0), Ccreate("LD", 1, "a", 0), 
             Csetitem("D", 2, "eid", "ab"), Csetitem("P", 3, "eid", "a"),
             Cconnect(1, IPin(3)), Cconnect(1, OPin(1, 1)), Cconnect(4, OPin(4, 3)), Cconnect(4, IPin(5)),
             Csettopdef(1, 3) >>
+(* the same kind of design under the EDIF policy, with identifiers in mixed case, two of them CHANGED after *)
+(* the element joined its parent (the old spelling must not answer any more)                               *)
+QInitE == << [op |-> "set_default", val |-> "EDIF"],
+             Cnew("N", "n"), Ccreate("NL", 1, "l", 0), Ccreate("LD", 1, "a", 0), Ccreate("LD", 1, "ab", 0),
+             Ccreate("LD", 1, "t", 0),
+             Ccreate("DP", 1, "a", 1), Ccreate("DP", 1, "A", 1),
+             Ccreate("DP", 2, "a", 2), Ccreate("DC", 2, "a", 2), Ccreate("DC", 2, "ab", 1),
+             Ccreate("DP", 3, "b", 1), Ccreate("DC", 3, "a", 1), Ccreate("DC", 3, "Ab", 1),
+             Cchild(2, NoVal, 1), Cchild(2, "a", 1), Cchild(2, "A", 1),
+             Cchild(3, "a", 2), Cchild(3, "ab", 2), Cchild(3, "b", 1),
+             Csetitem("L", 1, "eid", "Ab"), Csetitem("D", 1, "eid", "a"), Csetitem("D", 2, "eid", "Ab"), Csetitem("D", 3, "eid", "t"),
+             Csetitem("P", 1, "eid", "aB"), Csetitem("P", 2, "eid", "b"), Csetitem("C", 1, "eid", "A"), Csetitem("C", 2, "eid", "aB"),
+             Csetitem("I", 2, "eid", "Ab"), Csetitem("I", 3, "eid", "a"), Csetitem("I", 5, "eid", "aB"),
+             \* identifiers changed afterwards
+             Csetitem("D", 2, "eid", "b"), Csetitem("P", 1, "eid", "t"), Csetitem("C", 2, "eid", "m"), Csetitem("I", 2, "eid", "l"),
+             Csetitem("L", 1, "eid", "n"),
+             Csettopdef(1, 3) >>
 QScope == [init |-> QInit, ops |-> {}, max |-> MaxAll(0), names |-> {}, vals |-> {}, pos |-> {NoPos},
            createN |-> {0}, queries |-> {"C13"}, walk |-> FALSE, sample |-> 3000]
 
 ScopeTable ==
-  [ c15_edif |-> [FmtScope({"c15_edif"}) EXCEPT !.init = FmtInit \o << Cchild(3, "u", 1), Cchild(4, "v", 3),
+  [ c15_edif |-> [FmtScope({"c15_edif"}) EXCEPT !.init = FmtInit \o << Cchild(3, "u", 1), Cchild(4, "v", 3), Cchild(4, "w", 1),
                                                  Cconnect(1, OPin(2, 1)), Cconnect(6, OPin(3, 4)), Cconnect(6, IPin(7)) >>, !.ops = {}],
     c15_vlog |-> [VlogScope({"c15_verilog"}) EXCEPT !.init = VlogInit \o << Cconnect(5, OPin(2, 1)), Cconnect(12, OPin(3, 3)),
                                                  Cconnect(13, OPin(3, 4)) >>, !.ops = {}],
     c15_eblif |-> [EblifScope({"c15_eblif"}) EXCEPT !.init = EblifInit \o << Cchild(3, "u", 1), Cchild(3, "v", 2),
                                                  Cconnect(6, OPin(2, 1)), Cconnect(10, OPin(2, 2)), Cconnect(10, OPin(3, 3)),
                                                  Cconnect(9, OPin(3, 5)) >>, !.ops = {}],
-    c16_edif |-> FmtScope({"c16_edif"}),
+    \* mid's one-pin port b is an ARRAY port (like Verilog [0:0])
+    c16_edif |-> [FmtScope({"c16_edif"}) EXCEPT
+                    !.init = @ \o << [op |-> "set_attr", kind |-> "P", x |-> 5, key |-> "scalar", val |-> FALSE] >>],
+    \* ... connected inside the cell and on an instance of it
+    c16_edif_arr |-> [FmtScope({"c16_edif"}) EXCEPT
+                    !.init = @ \o << [op |-> "set_attr", kind |-> "P", x |-> 5, key |-> "scalar", val |-> FALSE],
+                                     Cchild(3, "u", 1), Cchild(4, "v", 3), Cconnect(3, IPin(6)), Cconnect(3, OPin(2, 1)),
+                                     Cconnect(4, OPin(3, 6)), Cconnect(4, IPin(7)) >>, !.ops = {}],
     c16_edif3 |-> [FmtScope({"c16_edif"}) EXCEPT !.init = FmtInit3, !.parents = {1, 4}],
     c16_vlog |-> VlogScope({"c16_vlog"}),
     c16_eblif |-> EblifScope({"c16_eblif"}),
@@ -423,6 +454,7 @@ ScopeTable ==
     compare |-> [init |-> CmpInit, ops |-> {}, max |-> MaxAll(0), names |-> {}, vals |-> {}, pos |-> {NoPos},
                  createN |-> {0}, queries |-> {"C20"}, walk |-> FALSE],
     query |-> QScope,
+    query_edif |-> [QScope EXCEPT !.init = QInitE, !.queries = {"C13e"}],
     clone_edit |-> CloneEditScope,
     clone |-> [XfScope EXCEPT !.queries = {"clone"}, !.names = {"a", U}, !.lookupVals = {"a", "leaf", "mid"},
                               !.ops = @ \cup {"remove:LD", "props:I"},
@@ -455,6 +487,8 @@ ScopeTable ==
                         !.max = [N |-> 1, L |-> 1, D |-> 3, P |-> 6, C |-> 2, I |-> 4, Q |-> 6, W |-> 4]],
     hier11 |-> HierScope({"C11"}, {}),
     hier12 |-> HierScope({"C12"}, {}),
+    \* connections also inserted at the FRONT of a wire's pin list (an instance pin ahead of a port pin)
+    hier12_pos |-> [HierScope({"C12"}, {}) EXCEPT !.pos = {NoPos, 0}],
     hier_walk |-> [HierScope({"walkq"}, {"set_name:I", "set_name:C", "set_name:P", "del_name:I", "set_attr:P",
                                           "set_attr:C", "remove:DI", "unref", "remove:PQ", "remove:CW",
                                           "create:PQ", "create:CW"})
@@ -469,8 +503,25 @@ ScopeTable ==
        max |-> [N |-> 1, L |-> 1, D |-> 3, P |-> 6, C |-> 2, I |-> 4, Q |-> 8, W |-> 3],
        names |-> {U, "a", "b"}, vals |-> {}, pos |-> {NoPos, 0, 1}, createN |-> {0, 2}, walk |-> TRUE],
     hier_edit |-> HierScope({"hcheck"}, {"remove:DI", "unref", "untop", "remove:LD", "remove:NL"}),
+    \* three levels deep, with referencing instances that contribute no occurrence: a removed child of top that
+    \* still references mid, and an instance of mid inside a definition nothing instantiates
+    hier_ghost |-> [HierScope({"hcheck", "C11"}, {"remove:DI"}) EXCEPT
+                      !.init = << Cnew("N", "n"), Ccreate("NL", 1, "lib", 0), Ccreate("LD", 1, "leaf", 0), Ccreate("LD", 1, "a", 0),
+                                  Ccreate("LD", 1, "m", 0), Ccreate("LD", 1, "top", 0), Ccreate("LD", 1, "spare", 0),
+                                  Ccreate("DP", 1, "i", 1), Ccreate("DC", 2, "w", 2), Csettopdef(1, 4),
+                                  Cchild(2, "b", 1), Cchild(3, "a", 2), Cchild(4, "m1", 3), Cchild(4, "m2", 3), Cchild(4, "x", 1),
+                                  Cchild(5, "s1", 2), Cchild(5, "s2", 3),
+                                  [op |-> "remove", rel |-> "DI", p |-> 4, x |-> 5] >>,
+                      !.max = [N |-> 1, L |-> 1, D |-> 5, P |-> 1, C |-> 1, I |-> 8, Q |-> 1, W |-> 2], !.parents = {}],
     naming |-> NamingScope("DEFAULT", {}),
     naming_edif |-> NamingScope("EDIF", {}),
+    \* a second library: its cells (a name that is free in the first library, and one that is taken there) are
+    \* offered to the first library while they still belong to the second, and the other way round
+    naming_two |-> [NamingScope("DEFAULT", {"add:DP"}) EXCEPT
+                      !.init = @ \o << Ccreate("NL", 1, "c", 0), Ccreate("LD", 2, "z", 0), Ccreate("LD", 2, "a", 0),
+                                       Ccreate("DP", 3, "z", 0) >>,
+                      !.max = [N |-> 1, L |-> 2, D |-> 5, P |-> 3, C |-> 1, I |-> 2, Q |-> 0, W |-> 0],
+                      !.lookupVals = {"a", "A", "b", "z"}],
     naming_mix |-> NamingScope("DEFAULT", {"set_default", "set_ns:P", "set_ns:D"}),
     conn |->
       [init |-> ConnInit,
@@ -530,6 +581,7 @@ QCands(s) ==
     \cup FmtCands(s, Queries)
     \cup (IF "C17" \in Queries THEN NameCands(s) ELSE {})
     \cup (IF "C17re" \in Queries THEN ReexportCands(s) ELSE {})
+    \cup (IF "C13e" \in Queries THEN EdifDirectProduct(s) ELSE {})
     \cup VlogCands(s, Queries)
     \cup EblifCands(s, Queries)
     \cup ComposeCands(s, Queries)
